@@ -95,6 +95,14 @@ CheckSum(ev) == CASE ev.e = "Sum8" -> ev.ret = CheckSum8(ev.in) /\ ev.ver = Chec
                   [] ev.e = "Crc32" -> ev.ret = Crc32(ev.in)
 \* digests = the distinct digests observed over all the splits of msg into update calls that the driver tried
 CheckMd5(ev) == ev.g /\ ev.n >= 1 /\ ev.digests = <<Md5(ev.msg)>>
+\* a message of 2^lg + delta bytes (>= 2^29: the 64-bit bit count carries into its high word) is far beyond what TLC can
+\* hash, so the law is split-independence over the recorded digests: the digest of ONE update() call equals the digest of the
+\* same bytes under every split the driver tried (splits = the distinct digests seen, among them pieces that are all shorter
+\* than 2^29 bytes) - plus the known digest of 2^29 zero bytes, aa559b4e3523a6c931f08f4df52d58f2
+Md5Zeros2p29 == <<170, 85, 155, 78, 53, 35, 166, 201, 49, 240, 143, 77, 245, 45, 88, 242>>
+CheckMd5Big(ev) == /\ ev.g /\ ev.n >= 1 /\ Len(ev.one) = 16
+                   /\ ev.splits = <<ev.one>>
+                   /\ (ev.lg = 29 /\ ev.delta = 0 /\ ev.pat = 0 => ev.one = Md5Zeros2p29)
 CheckAes(ev) == ev.g /\ ev.enc = Aes128Enc(T, ev.key, ev.in) /\ ev.dec = Aes128Dec(T, ev.key, ev.in)
 
 \* ---- serializer / deserializer ------------------------------------------------------------------------
@@ -115,6 +123,7 @@ TUrlEnc == IsEv("UrlEnc") /\ CheckUrlEnc(Ev) /\ Pure
 TUrlDec == IsEv("UrlDec") /\ CheckUrlDec(Ev) /\ Pure
 TSums == l <= Len(Log) /\ Ev.e \in {"Sum8", "Sum16", "Crc16", "Crc32"} /\ l' = l + 1 /\ CheckSum(Ev) /\ Pure
 TMd5 == IsEv("Md5") /\ CheckMd5(Ev) /\ Pure
+TMd5Big == IsEv("Md5Big") /\ CheckMd5Big(Ev) /\ Pure
 TAes == IsEv("Aes") /\ CheckAes(Ev) /\ Pure
 TSerNew == IsEv("SerNew") /\ SerNew(Ev.kind, Ev.size, Ev.big, Ev.mem) /\ UNCHANGED T
 TSerEndian == IsEv("SerEndian") /\ SerEndian(Ev.big) /\ Ev.old = res'.old /\ UNCHANGED T
@@ -128,7 +137,7 @@ TDesSkip == IsEv("DesSkip") /\ DesSkip(Need(Ev.n)) /\ Ev.ret = res'.ok /\ DesPos
 TDesSetPos == IsEv("DesSetPos") /\ DesSetPos(Ev.p) /\ Ev.ret = res'.ok /\ DesPost(Ev) /\ UNCHANGED T
 
 TNext == \/ TReset \/ TB64Enc \/ TB64Dec \/ THexEnc \/ THexDecBuf \/ THexDecVec \/ TScalEnc \/ TScalDec
-         \/ TUrlEnc \/ TUrlDec \/ TSums \/ TMd5 \/ TAes
+         \/ TUrlEnc \/ TUrlDec \/ TSums \/ TMd5 \/ TMd5Big \/ TAes
          \/ TSerNew \/ TSerEndian \/ TSerPut \/ TDesNew \/ TTransfer \/ TDesEndian \/ TDesGet \/ TDesNoCopy
          \/ TDesSkip \/ TDesSetPos
 TSpec == TInit /\ [][TNext]_tvars
